@@ -537,11 +537,22 @@ func main() {
 				}
 				switch m.Type {
 				case "violation":
+					// a worker reports a signature twice from the same file: unminimised as soon as it is
+					// found, minimised (file rewritten in place) at the end
 					if !seenSig[m.Sig] {
 						seenSig[m.Sig] = true
 						viols = append(viols, viol{m.Sig, m.Detail, m.Replay})
 					} else {
-						os.Remove(m.Replay)
+						same := false
+						for k := range viols {
+							if viols[k].sig == m.Sig && viols[k].replay == m.Replay {
+								viols[k].detail = m.Detail
+								same = true
+							}
+						}
+						if !same {
+							os.Remove(m.Replay)
+						}
 					}
 				case "summary":
 					gotSummary = true
@@ -581,9 +592,9 @@ func main() {
 			fmt.Fprintf(os.Stderr, "drive: worker %d failed: %v\n%s\n", i, errs[i], tail(stderrs[i].String(), 4000))
 		}
 	}
-	if trouble {
-		fatal(2, "worker trouble (not an oracle verdict)")
-	}
+	// Worker trouble is never an oracle verdict. A violation that some worker found and that a fresh
+	// process reproduces from its replay file is one, whatever happened to the other workers (a defect
+	// that exhausts memory can kill them): it is reported; everything else about a troubled batch is not believed.
 
 	// classify violations
 	exit := 0
@@ -615,11 +626,21 @@ func main() {
 			agg.Probes["replay_divergences"]++
 			fmt.Fprintf(os.Stderr, "drive: replay of %s did not reproduce %s in a fresh process (err=%v, got %v)\n", v.replay, v.sig, err, sigs)
 			// fall back: the violation was observed by an oracle on real code; still report it
+			if trouble {
+				continue // ... except in a troubled batch, where only reproduced violations count
+			}
 		}
 		fmt.Printf("VIOLATION property=%s replay=%s\n", id, v.replay)
 		fmt.Printf("  signature: %s\n  %s\n", v.sig, strings.ReplaceAll(tail(v.detail, 1500), "\n", "\n  "))
 		newViol = append(newViol, v.sig)
 		exit = 1
+	}
+
+	if trouble && exit == 0 {
+		fatal(2, "worker trouble (not an oracle verdict)")
+	}
+	if trouble {
+		fmt.Fprintf(os.Stderr, "drive: some workers failed (see above); reporting the violations the others found and a fresh process reproduced\n")
 	}
 
 	// evidence
@@ -650,6 +671,7 @@ func main() {
 		"signature_counts":    agg.SigCounts,
 		"workers":             workers,
 		"budget_s":            budget,
+		"worker_trouble":      trouble,
 	}
 	if len(agg.Samples) == 0 {
 		cov["samples"] = []string{"(no sample recorded)"}
